@@ -1,4 +1,5 @@
 import JsightVerif.Model.Project
+import JsightVerif.Proofs.BuildProps
 /-
   C19 — banned directives are always rejected.
   The ban is consulted where a directive is created from its keyword (core/scan_project.go
@@ -67,5 +68,21 @@ def isBanErr : Except PFault Core → Bool
   | _ => false
 example : isBanErr ((demoCore [.Get]).onLexeme ⟨.Keyword, 0, 2⟩) = true := by decide +kernel
 example : isBanErr ((demoCore [.Post]).onLexeme ⟨.Keyword, 0, 2⟩) = false := by decide +kernel
+
+/-! ### after MACRO/PASTE expansion (Model/Build.lean, tied by op `cat`) -/
+
+section Tied
+open JsightVerif.Model.Build
+
+/-- **C19 (expanded document)**: whenever the build model accepts a project, no directive of the
+    forest the catalog is built from — written directly, INCLUDEd or PASTEd from a macro — has a
+    banned kind (`addDirective` consults the ban set at every directive, and nothing changes it). -/
+theorem C19_expanded_not_banned (roots : List DT) (rootFile : Bytes) (banned : List Kind)
+    (content : Bytes → Bytes) (b : Built) (h : build roots rootFile banned content = .ok b) :
+    Tree.allList (notBanned banned) b.expanded = true := by
+  obtain ⟨_, _, _, _, tags, enums, s, _, _, _, hadd, _⟩ := build_stages roots rootFile banned content b h
+  exact (addList_banned content b.expanded [] b.expanded [] _ s hadd).2
+
+end Tied
 
 end JsightVerif.Props.C19
